@@ -114,7 +114,7 @@ def op_histogram(pairs):
             if res == 'ok' and op['k'] == 'descr':
                 for a in op['actions']:
                     cur = tb.t['descrs'].get(str(a[1]))
-                    if a[0] == 'upd' and cur is not None and cur[2].endswith('ContextDescriptor'):
+                    if a[0] == 'upd' and cur is not None and cur[2].endswith('ContextDescriptor') and cur[2] != 'SystemContextDescriptor':
                         k = sum(1 for x in d['cstates']['set'] if str(x[1]) == str(a[1]))
                         inc(f'context-descriptor-updated-with-{min(k, 3)}{"+" if k >= 3 else ""}-states' +
                             ('/entity' if op.get('iface') == 'entity' else ''))
